@@ -34,7 +34,7 @@ func main() {
 		MinNonTrivial:       20,
 		RaceIsViolation:     true,
 		DeadlockIsViolation: true,
-		CaseTimeout:         60 * time.Second,
+		CaseTimeout:         150 * time.Second,
 	})
 }
 
@@ -72,6 +72,20 @@ func run(c *harness.Ctx, i int) {
 		ymode = dsu.YieldTraced
 	}
 	failProb := []int{0, 0, 20, 50}[rng.Intn(4)]
+	// a handful of cases per run hold the first upstream request for a long stretch of real time while the other callers
+	// wait for it: a caller that gives up waiting and goes upstream on its own (a time-out on the followers' side) only
+	// shows when an upstream request outlasts that time-out. The verdict is still taken from the history, not the clock.
+	slowHold := time.Duration(0)
+	if i%3000 == 11 {
+		slowHold = 35 * time.Second
+		if c.Tier == "thorough" {
+			slowHold = 100 * time.Second
+		}
+		nIDs, park, failProb = 1, "", 0
+		if k < 4 {
+			k = 4
+		}
+	}
 
 	ms := dsu.NewMemStore("up")
 	// the upstream hands out decoded chunks, or (as a compressed store opened without verification does) chunks in
@@ -99,7 +113,12 @@ func run(c *harness.Ctx, i int) {
 		return nil
 	}
 	gateSeed := uint64(rng.Int63())
+	var held int32
 	ms.Gate = func(op string, id desync.ChunkID, n int64) {
+		if slowHold > 0 && atomic.CompareAndSwapInt32(&held, 0, 1) {
+			time.Sleep(slowHold)
+			return
+		}
 		r := mix(gateSeed ^ uint64(n)*977 ^ uint64(op[0]))
 		switch r % 4 {
 		case 0:
@@ -246,6 +265,9 @@ func run(c *harness.Ctx, i int) {
 		if v > 1 {
 			c.Violation("concurrent-upstream", "%d upstream requests for %s in flight at the same time", v, key[:12])
 		}
+	}
+	if slowHold > 0 {
+		c.Count("cases_with_an_upstream_request_held_for_tens_of_seconds", 1)
 	}
 	c.Count("caller_ops", int64(len(ops)))
 	c.Count("upstream_calls", int64(len(ups)))
